@@ -149,6 +149,7 @@ proof fn lemma_step(v: Seq<Value>, k: int)
 }
 
 //@extract fn bigtools/src/utils/misc.rs stats_for_bed_item
+//@rule R16
 //@rule R8
 //@rule R7 min=1
 //@rule R5 min=2
